@@ -200,3 +200,93 @@ def bound_by(fi, name, at_node, def_stmt):
         return False
     defs = du.reaching(name, node.id)
     return bool(defs) and all(d[0] == target.id for d in defs)
+
+
+def loop_shadowing(ctx, rule, modules):
+    """A name that is used after a `for` loop and whose reaching definitions there include both the loop's own target and
+    another binding (an earlier assignment or a parameter) has been shadowed by accident: after at least one iteration it holds
+    the last loop item, after zero iterations the earlier value. The pinned tree has no such use (0 sites)."""
+    hits = []
+    n_loops = 0
+    for fi in ctx.repo.all_functions():
+        if fi.module.name not in modules or fi.is_lambda:
+            continue
+        try:
+            du = defuse_of(fi)
+        except Undecided:
+            continue
+        cfg = du.cfg
+        for n in cfg.nodes:
+            if n.kind != "for":
+                continue
+            n_loops += 1
+            for t in [x.id for x in ast.walk(n.ast.target) if isinstance(x, ast.Name)]:
+                others = [d for d in du.defs.get(t, []) if d[0] != n.id]
+                if not others and t not in fi.params:
+                    continue
+                for u in walk_own(fi.node):
+                    if isinstance(u, ast.Name) and u.id == t and isinstance(u.ctx, ast.Load):
+                        p = u
+                        inside = False
+                        while p is not fi.node:
+                            p = p._parent
+                            if p is n.ast:
+                                inside = True
+                        if inside:
+                            continue
+                        un = cfg.node_of(u)
+                        if un is None:
+                            continue
+                        ids = {d[0] for d in du.reaching(t, un.id)}
+                        if n.id in ids and (len(ids) > 1 or t in fi.params):
+                            hits.append((fi, n, t, u))
+                            break
+    for (fi, n, t, u) in hits:
+        ctx.violated(rule, fi, "for %s in %s" % (norm(n.ast.target), norm(n.ast.iter)[:50]),
+                     "the loop variable `%s` overwrites a value that is still used after the loop (line %d): the later use silently refers to the last loop item" % (t, u.lineno),
+                     witness={"name": t, "use_after_loop_line": u.lineno}, line=n.lineno)
+    if not hits:
+        ctx.holds(rule, "%s:*" % ",".join(modules), "no loop variable shadows a name that is live after the loop in %s" % ", ".join(modules), "%d loops inspected" % n_loops)
+
+
+# unresolved names that exist on the pinned tree, each read and triaged (DESIGN.md section 0): none of them changes a behaviour
+# a property states; a *new* unresolved name in a property's modules is a NameError waiting on some path.
+KNOWN_UNRESOLVED = {
+    ("auth:Auth.__init__", "RunTimeError"): "Auth cannot be instantiated anyway: raising NameError instead of RuntimeError still refuses",
+    ("connection:ServerClientConnection._recvChallengeResponse", "client"): "else-branch after a failed validation: the NameError still does not promote (contained by the server loop)",
+    ("crypto:EllipticCurvePublicKey.getEncryptionKey", "hashlib"): "unused helper, no property anchored",
+    ("crypto:EllipticCurvePublicKey.savePEM", "self"): "unused static helper, no property anchored",
+    ("http_server:upgrade_websocket", "logging"): "error path of the websocket upgrade, no property anchored",
+    ("http_server:RequestFactory.process", "url"): "error path of request processing, no property anchored",
+    ("http_server:RequestFactory.process", "logging"): "error path of request processing, no property anchored",
+    ("http_server:HTTPServer.run", "ssl"): "TLS start-up path, no property anchored",
+    ("serializable:serialize_string", "length"): "error message of the over-long string refusal: the refusal still raises (NameError instead of ValueError text)",
+}
+
+
+def new_unresolved_names(ctx, rule, modules):
+    from engine.names import unresolved_names
+    n = 0
+    bad = []
+    for fi in ctx.repo.all_functions():
+        if fi.module.name not in modules:
+            continue
+        n += 1
+        seen = set()
+        for (name, line, node) in unresolved_names(fi):
+            if (fi.qual, name) in KNOWN_UNRESOLVED or name in seen:
+                continue
+            seen.add(name)
+            bad.append((fi, name, line))
+    for (fi, name, line) in bad:
+        ctx.violated(rule, fi, "unresolved name `%s`" % name, "the name resolves to no local, enclosing, module-level or builtin binding: NameError when this path runs",
+                     witness={"name": name}, line=line)
+    if not bad:
+        ctx.holds(rule, "%s:*" % ",".join(modules), "no unresolved name beyond the triaged list in %s" % ", ".join(modules), "%d functions inspected" % n)
+
+
+def repo_idioms(ctx, rule, modules):
+    """repository-wide idiom rules evaluated on the modules a property is anchored in"""
+    enum_identity(ctx, rule, modules)
+    loop_shadowing(ctx, rule, modules)
+    new_unresolved_names(ctx, rule, modules)
